@@ -12,6 +12,7 @@ import (
 	"math/big"
 	"math/rand"
 	"strings"
+	"testing/iotest"
 
 	"github.com/ipfs/go-cid"
 	"github.com/ipld/go-ipld-prime/codec/dagjson"
@@ -238,7 +239,17 @@ func ReplayJsonEnc(cs *JsonCase, seed int64, limit int) (*run.Finding, int) {
 		var derr error
 		var n datamodel.Node
 		if p := model.Safe(func() {
-			derr = dagjson.Decode(nb, bytes.NewReader(first))
+			// how the reader delivers the text is not part of the value: from one buffer, one byte per Read, or in two
+			// reads cut at a place that depends on the text
+			var r io.Reader = bytes.NewReader(first)
+			switch (len(first) + ii) % 3 {
+			case 1:
+				r = iotest.OneByteReader(bytes.NewReader(first))
+			case 2:
+				c := (len(first)*5 + 1) % len(first)
+				r = &chunkReader{chunks: [][]byte{first[:c], first[c:]}}
+			}
+			derr = dagjson.Decode(nb, r)
 			if derr == nil {
 				n = nb.Build()
 			}
